@@ -349,20 +349,23 @@ impl Protocol for V4 {
             // currently we can't conditionally set them based on v5 or v4,
             // so we ignore them, as properties can't be there in v4.
             Packet::ConnAck(connack, _) => connack::write(&connack, buffer)?,
-            Packet::Publish(publish, None) => publish::write(&publish, buffer)?,
-            Packet::PubAck(puback, None) => puback::write(&puback, buffer)?,
+            // The packets a broker sends can carry MQTT 5 properties even on a v4 link: a
+            // message published by a v5 client is forwarded with the publisher's properties.
+            // v4 has no properties on the wire, so they are dropped here.
+            Packet::Publish(publish, _) => publish::write(&publish, buffer)?,
+            Packet::PubAck(puback, _) => puback::write(&puback, buffer)?,
             Packet::Subscribe(subscribe, None) => subscribe::write(&subscribe, buffer)?,
-            Packet::SubAck(suback, None) => suback::write(&suback, buffer)?,
-            Packet::PubRec(pubrec, None) => pubrec::write(&pubrec, buffer)?,
-            Packet::PubRel(pubrel, None) => pubrel::write(&pubrel, buffer)?,
-            Packet::PubComp(pubcomp, None) => pubcomp::write(&pubcomp, buffer)?,
+            Packet::SubAck(suback, _) => suback::write(&suback, buffer)?,
+            Packet::PubRec(pubrec, _) => pubrec::write(&pubrec, buffer)?,
+            Packet::PubRel(pubrel, _) => pubrel::write(&pubrel, buffer)?,
+            Packet::PubComp(pubcomp, _) => pubcomp::write(&pubcomp, buffer)?,
             Packet::Unsubscribe(unsubscribe, None) => unsubscribe::write(&unsubscribe, buffer)?,
-            Packet::UnsubAck(unsuback, None) => unsuback::write(&unsuback, buffer)?,
-            Packet::Disconnect(disconnect, None) => disconnect::write(&disconnect, buffer)?,
+            Packet::UnsubAck(unsuback, _) => unsuback::write(&unsuback, buffer)?,
+            Packet::Disconnect(disconnect, _) => disconnect::write(&disconnect, buffer)?,
             Packet::PingReq(pingreq) => ping::pingreq::write(buffer)?,
             Packet::PingResp(pingresp) => ping::pingresp::write(buffer)?,
             _ => unreachable!(
-                "This branch only matches for packets with Properties, which is not possible in v4",
+                "This branch only matches for client packets with Properties, which is not possible in v4",
             ),
         };
         Ok(size)
